@@ -420,7 +420,7 @@ func runDisk(ch *simrt.Chooser, opt Options) RunResult {
 		case "torn":
 			// every cut point of small documents; sampled cut points of large ones
 			var cuts []int
-			if len(b) <= 4096 {
+			if len(b) <= 1500 {
 				for k := 0; k < len(b); k++ {
 					cuts = append(cuts, k)
 				}
